@@ -144,6 +144,17 @@ def oracle(suite, args, out):
             return "map_points disagrees with map_point"
         return None
     if k == 7:
+        # strokes thinner than a pixel in device space are drawn as coverage-modulated hairlines when anti-aliasing
+        # (painter.rs treat_as_hairline): not comparable with the filled outline, and C06's subject
+        sx, kx, ky, sy = [b2f(v) for v in args[1:5]]
+        w = b2f(args[7])
+        def fast_len(x, y):
+            x, y = abs(x), abs(y)
+            if x < y:
+                x, y = y, x
+            return x + y / 2
+        if args[8] and fast_len(sx * w, ky * w) <= 1.02 and fast_len(kx * w, sy * w) <= 1.02:
+            return None
         if o and o[0] > 0:
             return "stroke_path with the transform differs from filling path.stroke(stroke, resolution_scale(ts)) under it in %d bytes" % o[0]
         return None
